@@ -183,7 +183,23 @@ def property_from_data_contract(shape, idx):
                 return z3.Not(flag)
         return True
 
+    def single_ref_passthrough(ctx):
+        """a wrapper (allOf/anyOf/oneOf) around exactly one reference goes to _property_from_ref with the wrapper as parent;
+        a bare reference with parent None"""
+        calls = ctx.inputs["calls"]
+        comb = shape.get("comb")
+        if shape.get("reference"):
+            return len(calls) == 1 and calls[0][0] == "_property_from_ref" and calls[0][1].get("parent") is None
+        if comb in ("allOf-1ref", "anyOf-1ref"):
+            return len(calls) == 1 and calls[0][0] == "_property_from_ref" and isinstance(calls[0][1].get("parent"), SOpaque) \
+                and calls[0][1]["parent"].name == "data" and calls[0][1].get("data") is not None
+        return all(c[0] != "_property_from_ref" for c in calls)
+
     clauses = [
+        Clause("single-reference-passthrough", single_ref_passthrough,
+               statement="single-member allOf/anyOf/oneOf around a $ref is resolved as that reference (wrapper as parent, so a "
+                         "sibling default is kept); a bare $ref with parent None; nothing else goes to _property_from_ref",
+               props=["C17", "C20"]),
         Clause("one-builder", one_builder, statement="every path hands the schema to exactly one builder", props=["C02", "C05"]),
         Clause("name-escaped", escaped_name, statement="the name given to the builder is remove_string_escapes(name) on every path "
                                                        "(incl. direct and single-member $ref)", props=["C05"]),
@@ -191,7 +207,7 @@ def property_from_data_contract(shape, idx):
                                                              "caller's roots (a set even when none was given)", props=["C01", "C08"]),
         Clause("enum-style-by-config", enum_style, statement="EnumProperty is chosen iff not config.literal_enums", props=["C16"]),
     ]
-    return FnContract(f"{P}:property_from_data", [Case(f"shape{idx}", make, clauses, raises=(), props=["C05", "C01", "C08", "C16", "C02"])])
+    return FnContract(f"{P}:property_from_data", [Case(f"shape{idx}", make, clauses, raises=(), props=["C05", "C01", "C08", "C16", "C02", "C17", "C20"])])
 
 
 def inner_forwarding_contract(which):
